@@ -3,6 +3,7 @@ package main
 import (
 	"fmt"
 	"math/rand"
+	"strings"
 )
 
 // random symbolic DAG; faultRate: 1 in faultRate structural choices is a fault
@@ -96,6 +97,29 @@ func randomSymGraph(r *rand.Rand, maxNodes, faultRate int) *sgraphCase {
 				if r.Intn(3) == 0 {
 					name = fmt.Sprintf("t%c%d", 'a'+rune(r.Intn(26)), j*4+k) // arbitrary names
 				}
+				if r.Intn(8) == 0 {
+					// names that are prefixes / extensions of one another, carry separators or non-ASCII
+					// characters, are very long, or coincide with words the library uses
+					odd := []string{"a", "aa", "a.b", "a/b", "a:0", "a_0", "Y", "Y_h", "Y_c", "output", "input", "Abs", "w0x", "i0x", "x i", "\u540d\u524d", "n\u00e4me", strings.Repeat("L", 300)}
+					cand := odd[r.Intn(len(odd))] + fmt.Sprintf("%d", r.Intn(3))
+					if r.Intn(2) == 0 {
+						cand = odd[r.Intn(len(odd))]
+					}
+					fresh := true
+					for _, a := range avail {
+						if a == cand {
+							fresh = false
+						}
+					}
+					for _, a := range n.out {
+						if a == cand {
+							fresh = false
+						}
+					}
+					if fresh {
+						name = cand
+					}
+				}
 				n.out = append(n.out, name)
 				produced = append(produced, name)
 			}
@@ -156,13 +180,17 @@ func genC01(dir, tier string, seed int64) {
 		n = 6000
 	}
 	cw := newCaseWriter(dir, "C01_symbolic", symHeader, opFooter,
-		"seeded random DAGs over symbolic operators (outputs are hashes of operator id, attribute, input values and output index): 1..3 declared inputs, 0..2 initializers (some also declared as inputs and overridden or not, some shadowed by a caller tensor of the same name), extra caller tensors, 1..12 nodes with fan-in 0..3 and 1..3 outputs, skipped optional inputs (\"\"), omitted and arbitrarily named outputs, re-bound names, repeated operator types with different attributes; every intermediate declared as a graph output in two cases of three, a random subset of them in the third (the rest of the graph is then dead code, faults included); about 1 case in 6 carries a fault (missing input, unregistered operator type, failing node, undefined name, wrong output count, unbound output); in one case of three the same Model is first run once with other values and every default input overridden; marshalled and loaded with NewModelFromBytes", false, 100)
+		"seeded random DAGs over symbolic operators (outputs are hashes of operator id, attribute, input values and output index): 1..3 declared inputs, 0..2 initializers (some also declared as inputs and overridden or not, some shadowed by a caller tensor of the same name), extra caller tensors, 1..12 nodes with fan-in 0..3 and 1..3 outputs, skipped optional inputs (\"\"), omitted and arbitrarily named outputs (1 in 8: names that are prefixes of one another, carry '.', '/', ':' or non-ASCII characters, are 300 characters long or coincide with Y / Y_h / Abs / input / output), one graph in ten with up to 70 nodes, re-bound names, repeated operator types with different attributes; every intermediate declared as a graph output in two cases of three, a random subset of them in the third (the rest of the graph is then dead code, faults included); about 1 case in 6 carries a fault (missing input, unregistered operator type, failing node, undefined name, wrong output count, unbound output); in one case of three the same Model is first run once with other values and every default input overridden; marshalled and loaded with NewModelFromBytes", false, 100)
 	for i := 0; i < n; i++ {
 		fr := 6
 		if i%3 == 0 {
 			fr = 0 // a third of the graphs carry no fault at all: deep successful runs
 		}
-		c := randomSymGraph(r, 12, fr)
+		mx := 12
+		if i%10 == 9 {
+			mx = 70 // one graph in ten is large (up to 70 nodes: maps and slices grow past their initial sizes)
+		}
+		c := randomSymGraph(r, mx, fr)
 		obs := c.observe()
 		cw.write(c.gallina(obs))
 		count("nodes", fmt.Sprint(len(c.nodes)))
